@@ -54,6 +54,8 @@ def gen_sleep_history(rng, with_faults: bool, versions=("2.0", "2.1", "2.2", "2.
                 ops.append(("recv", f"{n};{rng.choice([0, 1])};0;0;3;", ()))
         elif x < 0.87:
             ops.append(("set_sleeping", rng.choice(nodes), rng.random() < 0.6))
+        elif x < 0.885:
+            ops.append(("reconnect",))
         elif x < 0.93:
             # the node asks for its state (typically right after waking, before its wake signal)
             ops.append(("recv", f"{rng.choice(nodes)};{rng.choice([0, 1])};2;0;{rng.choice([2, 3])};", ()))
